@@ -272,7 +272,7 @@ void gen_history(Rng &r, const Profile &pf, Plan &plan) {
             Step e; e.op = OP_PARAM_EDIT;
             int64_t g = static_cast<int64_t>(r.below(16));
             int64_t q = static_cast<int64_t>(r.below(16));
-            int64_t k = static_cast<int64_t>(r.below(4));
+            int64_t k = static_cast<int64_t>(r.below(5));
             int64_t sel = static_cast<int64_t>(r.below(48));
             e.i = {g, q, k, sel};
             e.s.push_back(gen_text(r, gen_desc_len(r, pf.max_desc)));
